@@ -209,7 +209,10 @@ Lemma print_tester_ok t : print_tester t = Ok tt.
 Proof. destruct t as [|l n]; cbn; auto. rewrite !guarded_self. cbn. auto. Qed.
 
 Lemma print_all_ok m : print_all m = Ok tt.
-Proof. unfold print_all, print_zmq, print_proxy, print_manager, print_regstats. cbn. rewrite print_tester_ok. auto. Qed.
+Proof.
+  unfold print_all, print_zmq, print_proxy, print_manager, print_regstats, float_ratio. cbn. rewrite print_tester_ok.
+  destruct (m_pipe m); auto.
+Qed.
 
 Lemma housekeeping_ok m : housekeeping m = Ok tt.
 Proof. unfold housekeeping. rewrite print_all_ok. cbn. auto. Qed.
@@ -234,11 +237,22 @@ Qed.
 
 Lemma housekeeping_no_panic f s m :
   start f s = Ok m ->
-  housekeeping m = Ok tt /\
-  forall l, exists m', reloads m l = Ok m' /\ housekeeping m' = Ok tt.
+  housekeeping m = Ok tt /\ housekeeping (launch m) = Ok tt /\
+  forall l, (exists m', reloads m l = Ok m' /\ housekeeping m' = Ok tt) /\
+            (exists m', reloads (launch m) l = Ok m' /\ housekeeping m' = Ok tt).
 Proof.
-  intros _. split; [apply housekeeping_ok|]. intros l. destruct (reloads_total l m) as [m' H].
-  exists m'. split; auto. apply housekeeping_ok.
+  intros _. split; [apply housekeeping_ok|]. split; [apply housekeeping_ok|]. intros l.
+  destruct (reloads_total l m) as [m1 H1]. destruct (reloads_total l (launch m)) as [m2 H2].
+  split; [exists m1|exists m2]; split; auto; apply housekeeping_ok.
+Qed.
+
+(* the job buffer has capacity 0 exactly for 1..9 workers, and the pipeline survives reloads *)
+Ltac Zify.zify_post_hook ::= Z.div_mod_to_equations.
+Lemma pipe_cap_zero w : pipe_cap w = 0 <-> (1 <= w <= 9)%Z.
+Proof.
+  unfold pipe_cap, defaultWorkerCount. destruct (w <=? 0)%Z eqn:E.
+  - split; [vm_compute; discriminate|lia].
+  - split; intros H; lia.
 Qed.
 
 (* ---------- reload ---------- *)
@@ -248,7 +262,7 @@ Definition sub_loaded (s : subfile) : option (list N) := match s with SubOk g =>
 Lemma reload_part_atomic m f s m' : on_reload m f s = Ok m' ->
   m_policy m' = (match cfg_loaded f with Some c => c_policy c | None => m_policy m end) /\
   m_sel m' = (match cfg_loaded f, sub_loaded s with Some _, Some g => g | _, _ => m_sel m end) /\
-  m_tester m' = m_tester m.
+  m_tester m' = m_tester m /\ m_pipe m' = m_pipe m.
 Proof.
   unfold on_reload, cfg_loaded. destruct (parse_config f) as [c|e|]; try discriminate.
   - intros [= <-]. cbn. destruct s; cbn; auto.
@@ -273,7 +287,7 @@ Proof.
   induction l as [|[f s] r IH]; intros m m'; cbn.
   - intros [= <-]. auto.
   - destruct (on_reload_total m f s) as [m1 H1]. rewrite H1. cbn. rewrite housekeeping_ok. cbn.
-    intros H. apply IH in H. destruct (reload_part_atomic _ _ _ _ H1) as (A & B & C).
+    intros H. apply IH in H. destruct (reload_part_atomic _ _ _ _ H1) as (A & B & C & _).
     rewrite <- A, <- B, <- C. auto.
 Qed.
 
